@@ -26,8 +26,8 @@ def jobs(tier):
                                'harness': (H2, 'h_deps'), 'params': {'mode': 'Build', 'shape': shape, 'kind': kind, 'before': before, 'after': after}})
     # lemma "a completed dependency's output on disk is its fresh output, whatever was lying there": Build and --needed from a
     # symbolic pre-existing output (longer, shorter, equal prefix ...) leave the bytes a build from a clean tree leaves
-    for sc in (['text'], ['include f'], ['text', 'text']):
-        for pl in ((3, 4, 5) if tier == 'quick' else (1, 2, 3, 4, 5, 6, 7)):
+    for sc in (['text'], ['include f'], ['text', 'text'], ['temp'], ['include f', 'empty'], ['empty']):
+        for pl in ((0, 3, 4, 5) if tier == 'quick' else (0, 1, 2, 3, 4, 5, 6, 7)):
             for md in ('Build', 'InMemoryBuild'):
                 js.append({'name': 'lemma fresh output over an old one: %s pre_out=%d %s' % (md, pl, '/'.join(sc)), 'harness': (H2, 'h_hermetic'),
                            'params': {'nlines': len(sc), 'menu_name': 'small', 'fixed': sc, 'pre_out_len': pl, 'pre_temp_len': None,
